@@ -118,6 +118,7 @@ def eval_spaces(prop, tier):
                 sig(s + ";files=6", 8)
             sig("KBPkb;files=4;ep=none", 16)
             sig("KBPPkb;files=3;ep=none", 16)
+            sig("KBPkbp;files=3", 16)
             sig("KQkrp;files=4;ep=none", 16)
             sig("KNNkp;files=4;ep=none", 16)
             sig("Ke1Rh1Pke8ra8p;files=8;ep=none", 8)
@@ -126,7 +127,7 @@ def eval_spaces(prop, tier):
                 sig(s, 16)
             for s in ["KRNkr", "KRBkr", "KNNkp", "KBPkb", "KQkrp", "KBBkn", "KBNkb", "KBPPk"]:
                 sig(s + ";files=5;ep=none", 32)
-            for s in ["KBPPkb", "KQkrpp", "KPPPk", "KBPPPk"]:
+            for s in ["KBPPkb", "KQkrpp", "KPPPk", "KBPPPk", "KBPkbp", "KBPPkbp"]:
                 sig(s + ";files=3;ep=none", 32)
             sig("Ke1Ra1Rh1Pke8ra8rh8p;ep=none", 16)
         seeds = plans.SEEDS
